@@ -683,3 +683,77 @@ pub fn hooks_strategy() -> BoxedStrategy<HooksCase> {
         .prop_map(|(val, tweak, how)| HooksCase { val, tweak, how })
         .boxed()
 }
+
+// ---------------------------------------------------- values above 100 MiB
+
+/// Md5ValidationHooks carries a size threshold (`should_skip_validation`: above 100 MiB). The
+/// statement has no size limit, so both sides of it are exercised: a handful of fixed cases.
+#[derive(Debug, Clone, Serialize, Deserialize)]
+pub enum BigCase {
+    Hooks(HooksCase),
+    Cac(CacCase),
+    Ml(MlCase),
+}
+
+pub const MIB100: u32 = 100 * 1024 * 1024;
+
+pub fn big_cases() -> Vec<BigCase> {
+    let mut v = Vec::new();
+    for (i, len) in [MIB100, MIB100 + 1].into_iter().enumerate() {
+        let val = Val { len, seed: 0xB16 + i as u64 };
+        let flip = How::FlipBit { sel: 0x8000_0000, bit: 3 };
+        v.push(BigCase::Hooks(HooksCase { val: val.clone(), tweak: None, how: flip.clone() }));
+        let keys = vec![KeySel { val: 0, tweak: None }];
+        for disk in [false, true] {
+            v.push(BigCase::Cac(CacCase {
+                disk,
+                vals: vec![val.clone()],
+                keys: keys.clone(),
+                ops: vec![
+                    CacOp::PutValidated { key: 0, how: How::Good },
+                    CacOp::Get { key: 0 },
+                    if disk { CacOp::FileWrite { key: 0, how: flip.clone() } } else { CacOp::InnerPut { key: 0, how: flip.clone() } },
+                    CacOp::Get { key: 0 },
+                ],
+            }));
+        }
+        for ngdp_hooks in [false, true] {
+            v.push(BigCase::Ml(MlCase {
+                three: false,
+                ngdp_hooks,
+                vals: vec![val.clone()],
+                keys: keys.clone(),
+                ops: vec![
+                    MlOp::PutValidated { key: 0, how: How::Good },
+                    MlOp::Get { key: 0 },
+                    MlOp::LayerPut { key: 0, how: flip.clone(), layer: 0 },
+                    MlOp::Get { key: 0 },
+                    MlOp::PutValidated { key: 0, how: flip.clone() },
+                ],
+            }));
+        }
+    }
+    v
+}
+
+pub fn check_big(c: &BigCase) -> Verdict {
+    let (mut v, len) = match c {
+        BigCase::Hooks(h) => (check_hooks(h), h.val.len),
+        BigCase::Cac(x) => (check_cac(x), x.vals.iter().map(|v| v.len).max().unwrap_or(0)),
+        BigCase::Ml(x) => (check_ml(x), x.vals.iter().map(|v| v.len).max().unwrap_or(0)),
+    };
+    // own key: what fails only above the threshold has its own root cause
+    if len > MIB100 {
+        if let Some(f) = v.fail.take() {
+            v.fail = Some(vh_engine::Failure { key: format!("{}:value>100MiB", f.key), msg: f.msg });
+        }
+        v = v.class("value>100MiB");
+    } else {
+        v = v.class("value==100MiB");
+    }
+    v.class(match c {
+        BigCase::Hooks(_) => "hooks-direct",
+        BigCase::Cac(_) => "content-addressed",
+        BigCase::Ml(_) => "multi-layer",
+    })
+}
